@@ -112,7 +112,8 @@ func c03(r *Run) {
 			case isExtCall(ins, "/mcache", "Malloc"):
 				r.ob("C03.R1:who-calls-mcache.Malloc:"+name, "mcache.Malloc is reached only through the malloc() wrapper", f, ins, f == mallocFn, "in "+name, false)
 			case isCall(ins, freeFn):
-				ok := f == nodeRelease || name == "(*UnsafeLinkBuffer).Release"
+				// (or by a private helper that only one of them calls)
+				_, ok := w.OwnerOf(f, func(n string) bool { return n == w.FnName(nodeRelease) || n == "(*UnsafeLinkBuffer).Release" })
 				r.ob("C03.R1:who-frees:"+siteKey(w, ins), "blocks are returned to the pool only by node.Release (the node's own block) and by the reader's Release (blocks backing multi-node results)", f, ins, ok, "in "+name, false)
 			case func() bool {
 				fn := calleeOf(ins)
